@@ -3,7 +3,7 @@
 # Confirms in the scratch worktree that (1) the existing suite passes with the patch, (2) the
 # demonstration fails with the patch and passes without it; stores the seed under /verif/seeded/<name>/.
 set -u
-P=$1; NAME=$2; CR=${3:-maybenot}; W=/tmp/mut-$P; p=$(echo $P | tr A-Z a-z)
+P=$1; NAME=$2; CR=${3:-maybenot}; W=${4:-/tmp/mut-$P}; p=$(echo $P | tr A-Z a-z)
 OUT=/verif/seeded/$NAME; mkdir -p $OUT
 cd $W || exit 2
 export CARGO_NET_OFFLINE=true CARGO_TARGET_DIR=$W/target
